@@ -40,6 +40,11 @@ TRUSTED = {
 }
 
 STANDINS = [
+    "harness stand-in: vpvec::Vec (+ a shadowing vec! macro) - an array-backed Vec bound to the name `Vec` inside modules graph and techmap (AigModule.nodes / sinks, CompoundMatch, refcount "
+    "tables): same observable behaviour for new/push/len/index/iter up to a fixed capacity, pushing beyond the capacity fails the harness; std's heap Vec with symbolic growth blows up CBMC",
+    "harness stand-in (module rewrite_lib only): valaig::AigModule implements exactly mk_and's proved contract (append a node whose value is the AND of the operand values, under one symbolic "
+    "assignment) instead of the hash-consing mk_and; the real mk_and is proved against that contract in mk_and_value_frame_and_sharing. So the try_library_rewrite harnesses see mk_and through "
+    "its contract (modular), while the instantiate_pattern harnesses run through the real mk_and",
     "harness stand-in: vpmap::HashMap for std::collections::HashMap inside the extracted AigModule (hash_cons, net_edge) and compute_cut_tt/eval_tt (leaf_tt, memo): "
     "finite-map semantics as an association list (new, with_capacity, get, insert); std's hashbrown + RandomState is not ingestible by CBMC",
     "harness stand-in: crate::oracle::{npn_canonical, lookup_canonical} and rewrite_lib::compute_cut_tt answer with harness-chosen symbolic values (module rewrite_lib only): "
